@@ -93,3 +93,23 @@ def classify(case, out):
     if e != int(e) and me < e + 1:
         return "int_fractional_bound"
     return None
+
+
+def classify_extreme(case, out):
+    """C01 classes of extreme inputs, decided from the harness output of a failing float/double case:
+    fd_range_overflow  - max - min, or a prediction + k*2e, is not finite in the element type
+    fd_denormal_bound  - the effective bound is below the smallest normal number of the element type"""
+    p = parse_rt(case)
+    d = kv(out.split(" | ", 1)[1] if (out.startswith("DIED") and " | " in out) else out)
+    ty = p["ty"]
+    if ty not in (0, 1):
+        return None
+    big = 3.0e38 if ty == 0 else 1.7e308
+    tiny = 1.1754944e-38 if ty == 0 else 2.2250738585072014e-308
+    if "pe" in d and "pamax" in d:
+        e, amax = dbl(d["pe"]), dbl(d["pamax"])
+        if e != e or e == float("inf") or amax * 2 > big or (amax + 65536 * 2 * e) > big:
+            return "fd_range_overflow"
+        if 0 <= e < tiny:
+            return "fd_denormal_bound"
+    return None
